@@ -1151,6 +1151,7 @@ pub fn gen_volspec(rng: &mut Rng, bias: Bias, lba: u32, slot: u8) -> VolSpec {
     // variations added later are derived from the tree seed, not drawn: the stream above stays what it was
     let mut r2 = Rng::new(v.tree.seed ^ 0x7661_7269_6174_696f);
     let (a, b, c) = (r2.below(16), r2.below(2), r2.below(24));
+    let mut r2b = Rng::new(v.tree.seed ^ 0x736d_616c_6c68_696e);
     if v.fat32 && a == 0 {
         // a long reserved area with the information sector beyond block 255 (the field is 16 bits wide)
         v.reserved = 258 + r2.below(300) as u16;
@@ -1159,6 +1160,12 @@ pub fn gen_volspec(rng: &mut Rng, bias: Bias, lba: u32, slot: u8) -> VolSpec {
     }
     if v.fsinfo == FsInfoKind::HintAfterLastFree && b == 0 {
         v.fsinfo = FsInfoKind::ZeroHintAfterLastFree;
+    }
+    if v.fat32 && bias == Bias::Small && r2b.below(6) == 0 {
+        // the power-cut and device-error engines (small volumes) otherwise never see a hint that sends the first
+        // allocation of a session round the volume
+        v.fsinfo = if r2b.chance(1, 2) { FsInfoKind::HintAfterLastFree } else { FsInfoKind::ZeroHintAfterLastFree };
+        v.tree.free = Some(*r2b.pick(&[1u32, 1, 2, 3, 8]));
     }
     if !v.fat32 && c == 0 {
         // the largest root directories: 2048 entries and more (entry count times 32 no longer fits 16 bits)
